@@ -81,3 +81,16 @@ package storer
 //gvc:  results n err
 //gvc:  ensures absent: is(err, plumbing.ErrObjectNotFound) == spec_absent(keyid(h))
 //gvc:end
+
+// Object membership of a storage: #has : object key id -> stored?
+// HasEncodedObject answers nil only for a stored object (trusted interface
+// contract).
+//gvc:ghost EncodedObjectStorer.has set
+
+//gvc:func EncodedObjectStorer.HasEncodedObject
+//gvc:  trusted
+//gvc:  params s h
+//gvc:  results err
+//gvc:  ensures present: err == nil ==> s.#has[keyid(h)]
+//gvc:  ensures absent: is(err, plumbing.ErrObjectNotFound) ==> !s.#has[keyid(h)]
+//gvc:end
